@@ -20,6 +20,9 @@ EVENTS = [
 # events used with dedicated probes
 EV_SAME_TASK = {'tag': 'same-task-object', 'proto': 'cont3z', 'over': None, 'same_task': True}
 EV_B_PROCESS = {'tag': 'B-other-task-process-mode', 'proto': 'cont2s', 'over': None, 'tcls': 'B', 'mode': 'process'}
+# the earlier run visits the very same positions (same box, same environment answers) under ANOTHER objective
+EV_OTHER_OBJ = {'tag': 'A-other-objective-same-answers', 'proto': 'cont3z', 'over': None, 'obj': 'multi', 'same_seed': True}
+EV_BIN_OTHER_OBJ = {'tag': 'bin4-other-objective', 'proto': 'bin4', 'over': None, 'obj': 'multi'}
 EV_A_THREAD = {'tag': 'A-same-config-thread-mode', 'proto': 'cont3z', 'over': None, 'mode': 'thread'}
 
 
@@ -44,6 +47,9 @@ def jobs(tier, s0):
         es = {'fitness_error': None, 'max_cycles': 3, 'early_stopping': {'patience': 1, 'min_delta': 10.0}}
         for h in ([EVENTS[0]], [EVENTS[4]], [EVENTS[5]], [EVENTS[2]]):
             out.append((_scn(n, 'cont3z', cycles=3, seed=s0, runner='c08', history=h, over=es), {'d': 0}))
+        # sixth probe: positions that were already evaluated in an earlier run under another objective
+        out.append((_scn(n, 'cont3z', cycles=2, seed=s0, runner='c08', history=[EV_OTHER_OBJ]), {'d': 0}))
+        out.append((_scn(n, 'bin4', cycles=2, seed=s0, runner='c08', history=[EV_BIN_OTHER_OBJ]), {'d': 0}))
         # fourth probe: the very same seeded task object is handed to the optimizer twice
         out.append((_scn(n, 'cont3z', cycles=2, seed=s0, runner='c08', history=[EV_SAME_TASK], task_seed=42), {'d': 0}))
         # fifth probe: pooled modes on a reused instance (model pools, default schedule): another task before
